@@ -30,7 +30,7 @@ RULE = ("Hypothesis generates libraries (overload sets distinct by Python type c
         "constness and ownership the C++ signature implies; at the end every interpreter-owned object has exactly one DEATH, no borrowed "
         "object has one, and no DOUBLE-DEATH/use-after-death marker exists. Non-trivial: a history with >= 6 executed steps including an "
         "overloaded or defaulted call, an object argument or result, and a drop; distinct by (options, step kinds, parameter kinds).")
-ASSUMPTIONS = ["OverflowError is expected only where a single overload takes that many arguments (with several candidates the dispatcher falls through to 'Arguments must match' TypeError; every class has an implicit copy constructor next to its other constructors)",
+ASSUMPTIONS = ["OverflowError is expected only for functions with a single overload (with several the dispatcher falls through to 'Arguments must match' TypeError; every class has an implicit copy constructor next to its other constructors)",
                "plain 'char' is a one-character string in this back-end, not an integer type: the libraries use signed/unsigned char instead",
                "a function with exactly one parameter is compiled as METH_O and takes no keyword argument: keyword calls are made on functions with two or more parameters",
                "namespaces and a direct base that is also an indirect base are kept out of the libraries (known findings of C03)",
@@ -115,6 +115,25 @@ def py_value(v, t, lib):
     raise ValueError(v)
 
 
+def enrich(raw):
+    """every class gets (a) a const method handing out a const pointer/reference to itself and a non-const one handing out a
+    mutable one (the history then owns borrowed and const wrappers), and (b) an overload pair that differs in constness of an
+    object parameter and in the category of another parameter -- the shapes the constness rules are about"""
+    raw = json.loads(json.dumps(raw))
+    for i, c in enumerate(raw.get("classes", [])):
+        own = lambda mode: {"k": "obj", "c": i, "mode": mode}       # noqa: E731
+        c["members"] = c["members"] + [
+            {"m": "method", "vis": 0, "static": False, "const": True, "virt": 0, "doc": 0,
+             "ovs": [{"params": [], "ret": own(4 if i % 2 else 2), "ndef": 0, "dv": 0}]},
+            {"m": "method", "vis": 0, "static": False, "const": False, "virt": 0, "doc": 0,
+             "ovs": [{"params": [], "ret": own(3 if i % 2 else 1), "ndef": 0, "dv": 0}]},
+            {"m": "method", "vis": 0, "static": bool(i % 2), "const": False, "virt": 0, "doc": 0,
+             "ovs": [{"params": [own(1 if i % 3 else 3), {"k": "prim", "p": 6}], "ret": {"k": "prim", "p": 6}, "ndef": 0, "dv": 0},
+                     {"params": [own(2 if i % 3 else 4), {"k": "str", "mode": 0}], "ret": {"k": "prim", "p": 6}, "ndef": 0, "dv": 0}]},
+        ]
+    return raw
+
+
 def judge_literal(case, ctx):
     """replay form of minimised findings: a hand-written header and a Python script run against the built module"""
     lib = c03._Literal(case["literal"])
@@ -148,7 +167,7 @@ def judge(case, ctx):
     flags = ["-string"] + (["-promiscuous"] if prom else []) + (["-nomangle"] if case["nomangle"] else [])
     opts = {"impl": True, "avoid": set(ctx.disabled_tags) | {"base.direct_and_indirect"}, "single_file": True, "no_namespace": True,
             "py_distinct": True, "keyword_names": True}
-    lib = hgen.build(c01.boost(case["raw"]), opts)
+    lib = hgen.build(enrich(c01.boost(case["raw"])), opts)
     be = "-python-native"
     classes = ["opt." + f for f in flags]
     cls_by_q = {c["qname"]: c for c in lib.classes}
@@ -224,13 +243,14 @@ def judge(case, ctx):
                     ensure_object(p.ref, s, depth + 1)
                 seed = s[4 + i % 6] + i * 7919
                 v = None
+                usable = [x for x in slots if not (x.get("const") and p.kind == "obj" and p.mode in (1, 3))]     # a const object only where C++ takes one
                 if p.kind == "obj" and seed % 3 == 0:
                     # an instance of a publicly derived class where the base class is expected
-                    der = [x for x in live(p.ref, exact=False) if x["cls"] is not p.ref]
+                    der = [x for x in live(p.ref, exact=False) if x["cls"] is not p.ref and x in usable]
                     if der:
                         v = {"k": "slot", "slot": der[seed % len(der)]["n"], "mode": p.mode, "derived": True}
                 if v is None:
-                    v = c01.pick_value(p, seed, slots, True, python=True)
+                    v = c01.pick_value(p, seed, usable, True, python=True)
                 if v is None or v["k"] == "null":
                     return None, None
                 vals.append(v)
@@ -290,14 +310,25 @@ def judge(case, ctx):
                     st_.update(op="binop", name=opn[1])
                 if call["name"] == "operator -" and not call["params"] and s[8] % 2:
                     st_.update(op="binop", name="neg")
+                if st_["op"] == "binop" and any(v.get("derived") for v in vals):
+                    st_["op"] = "call"        # Python itself tries the reflected method of a subclass operand first
+                    st_.pop("name")
+                    st_["name"] = pyname(call["name"], alias, len(call["params"]))
             elif call["kind"] == "static":
                 st_.update(op="pcall", path=[call["cls"]["name"], pyname(call["name"], alias)], ret=ret_code(call["ret"]))
             else:
                 st_.update(op="pcall", path=[pyname(call["name"], alias)], ret=ret_code(call["ret"]))
             if negative:
                 mode = negative
-                if call.get("name") in OPNAME and mode != "arity+":
+                if call.get("name") in OPNAME and mode not in ("arity+", "constthis"):
                     return False               # operator slots answer NotImplemented for foreign operands (Python's protocol), they do not raise
+                if mode == "constthis":
+                    cthis = [x for x in live(call["cls"]) if x.get("const")] if call["kind"] == "method" and not call["const"] else []
+                    if not cthis:
+                        return False
+                    this = cthis[s[3] % len(cthis)]
+                    st_["on"] = this["n"]
+                    exc = "TypeError"
                 same = [x[0] for x in avail if x[0].get("name", x[0]["fname"]) == call.get("name", call["fname"]) and x[0]["kind"] == call["kind"]]
                 # same-named overloads anywhere in the library (Python may expose inherited or differently published flavours)
                 named = [ov for c_ in lib.classes for m_ in c_["members"] if m_["kind"] == "method" and m_["name"] == call.get("name") for ov in m_["ovs"]]
@@ -329,12 +360,32 @@ def judge(case, ctx):
                     if not ints:
                         return False
                     i = ints[s[7] % len(ints)]
-                    if call["kind"] == "ctor" or len([x for x in (named or same) if len(x["params"]) - x["ndef"] <= len(params) <= len(x["params"])]) != 1:
+                    if call["kind"] == "ctor" or len(named or same) != 1:
                         return False           # another overload of this arity might take the value (a wider integer, a float)
                     lo, hi = c01.RANGE[params[i].name]
                     st_["args"] = list(pargs)
                     st_["args"][i] = {"k": "v", "v": hi + 1 if s[8] % 2 else lo - 1}
                     exc = "OverflowError"
+                if mode == "constarg":
+                    idxs = [i for i, p_ in enumerate(params) if p_.kind == "obj" and p_.mode in (1, 3) and any(x.get("const") for x in live(p_.ref))]
+                    if not idxs:
+                        return False
+                    i = idxs[s[7] % len(idxs)]
+                    cs = [x for x in live(params[i].ref) if x.get("const")]
+
+                    def maybe(a, b):
+                        ca, cb = a.category(), b.category()
+                        return ca == cb or {ca, cb} <= {"int", "float"}
+                    for o in named:
+                        if o["params"] == call["params"] or not (len(o["params"]) - o["ndef"] <= len(params) <= len(o["params"])):
+                            continue
+                        pi_ = o["params"][i] if i < len(o["params"]) else None
+                        if pi_ is not None and pi_.kind == "obj" and (pi_.ref is params[i].ref or pi_.ref in hgen._ancestors(params[i].ref)) and pi_.mode in (0, 2, 4) and \
+                                all(maybe(params[j], o["params"][j]) for j in range(len(params)) if j != i):
+                            return False          # C++ would pick that overload instead: not an error
+                    st_["args"] = list(pargs)
+                    st_["args"][i] = {"k": "slot", "slot": cs[s[8] % len(cs)]["n"]}
+                    exc = "TypeError"
                 st_["expect_error"] = True
                 st_.pop("bind", None)
                 native.append('  vf_emit("STEP %d"); printf("ERR %d\\n");' % (n_step, n_step))
@@ -353,9 +404,30 @@ def judge(case, ctx):
                 expect.append({"kind": "ok", "obj": {"type": call["cls"]["name"], "const": 0, "owns": 1}})
                 kinds.add("ctor")
             else:
-                emit_native_ret(native_call_expr(call, this, args_cpp), call["ret"], n_step)
-                obj = None
                 ret = call["ret"]
+                src_slot = None
+                if ret.kind == "obj" and ret.mode in (1, 2, 3, 4) and call["name"] not in OPNAME and s[8] % 3 != 1:
+                    # the instrumented body hands back its first parameter of that class, else *this
+                    for p_, v_ in zip(params, vals):
+                        if p_.kind == "obj" and p_.ref is ret.ref:
+                            src_slot = slots[v_["slot"]] if v_["k"] == "slot" and not v_.get("derived") else None
+                            break
+                    else:
+                        if this is not None and this["cls"] is ret.ref:
+                            src_slot = this
+                if src_slot is not None:
+                    n = len(slots)
+                    isconst = ret.mode in (2, 4)
+                    slots.append({"n": n, "cls": ret.ref, "alive": True, "owned": False, "const": isconst, "owner": src_slot["n"]})
+                    expr = native_call_expr(call, this, args_cpp)
+                    cq = "const " if isconst else ""
+                    native.append('  vf_emit("STEP %d"); %s::%s *o%d = %s(%s); printf("RET %d %%s\\n", vf_desc(o%d).c_str());' % (
+                        n_step, cq, ret.ref["qname"], n, "&" if ret.mode in (1, 2) else "", expr, n_step, n))
+                    st_["bind_result"] = n
+                    kinds.add("borrowed-result" + (".const" if isconst else ""))
+                else:
+                    emit_native_ret(native_call_expr(call, this, args_cpp), call["ret"], n_step)
+                obj = None
                 if ret.kind == "obj" and call["name"] != "operator +=":       # an in-place operator hands back the very same wrapper
                     obj = {"type": ret.ref["name"], "const": 1 if ret.mode in (2, 4) else 0, "owns": 1 if ret.mode == 0 else 0}
                     if ret.mode == 0:
@@ -380,6 +452,13 @@ def judge(case, ctx):
                 steps.append({"op": "drop", "slot": src["n"]})
                 expect.append({"kind": "ok", "obj": None})
                 src["alive"] = False
+                changed = True
+                while changed:
+                    changed = False
+                    for x in slots:
+                        if x["alive"] and x.get("owner") is not None and not slots[x["owner"]]["alive"]:
+                            x["alive"] = False
+                            changed = True
                 kinds.add("drop")
                 continue
             if a == 1 and fields and live():
@@ -448,7 +527,7 @@ def judge(case, ctx):
             elif a >= 8:
                 pool = [x for x in avail if x[0]["kind"] == "method"] or avail
             call, k, w = pool[s[1] % len(pool)]
-            negative = {0: "arity+", 1: "object", 2: "range"}.get(s[6] % 9)
+            negative = {0: "arity+", 1: "object", 2: "range", 3: "constthis", 4: "constarg"}.get(s[6] % 12)
             do_call(call, k, w, s, 0, negative)
         if not steps:
             return Outcome(ok=True, classes=classes + ["empty-history"])
@@ -466,7 +545,7 @@ def judge(case, ctx):
             raise core.Broken("generated native driver does not compile: " + errs + "\n" + "\n".join(native[:40]))
         c = bindgen.cc(d, "l_igate.cxx", "l_igate.o", lib=lib, python=True)
         if c.rc != 0:
-            return Outcome(ok=True, classes=classes + ["code-does-not-compile"])
+            return Outcome(ok=True, classes=classes + ["code-does-not-compile", "cdnc:" + (bindgen.first_errors(c.err.decode("latin-1")) or ["?"])[0]])
         rm = igate.interrogate_module(d, ["l.in"], opts=["-python-native"], module="m", library="m")
         if rm.rc != 0:
             return Outcome(ok=True, classes=classes + ["module-failed"])
